@@ -116,9 +116,14 @@ def count_statements(props_v):
     names = re.findall(r"^\s*(?:Theorem|Lemma|Example|Corollary)\s+(\w+)", txt, flags=re.M)
     return names
 
+def extract_dir(extract_v, model_vos):
+    """properties that share an extraction file and model share the extracted driver"""
+    k = hashlib.sha256(" ".join(sorted(model_vos)).encode()).hexdigest()[:8]
+    return os.path.join(BUILD, "ocaml", "x-%s-%s" % (os.path.basename(extract_v)[:-2], k))
+
 def extract_model(pid, extract_v, model_vos):
     """extract the model to OCaml and build the driver, skipped when the .vo inputs are unchanged"""
-    d = os.path.join(BUILD, "ocaml", pid)
+    d = extract_dir(extract_v, model_vos)
     os.makedirs(d, exist_ok=True)
     h = hashlib.sha256()
     for f in sorted(glob.glob(os.path.join(COQ, "theories", "**", "*.vo"), recursive=True)):
@@ -130,7 +135,9 @@ def extract_model(pid, extract_v, model_vos):
     exe = os.path.join(d, "drive_model")
     if os.path.exists(stamp) and os.path.exists(exe) and open(stamp).read() == h.hexdigest():
         return True, "", exe
-    with Lock("ocaml-" + pid):
+    with Lock("ocaml-" + os.path.basename(d)):
+        if os.path.exists(stamp) and os.path.exists(exe) and open(stamp).read() == h.hexdigest():
+            return True, "", exe
         rc, o = sh(["timeout", "900", "coqc", "-R", os.path.join(COQ, "theories"), "V", os.path.join(COQ, extract_v)], cwd=d)
         # coqc leaves .vo/.glob next to the source; remove them
         for ext in (".vo", ".glob", ".vok", ".vos"):
@@ -239,7 +246,7 @@ def check(pid, tier, seed, replay=None):
         problems.append(("model-build", "model files do not compile:\n" + mo[-3000:]))
         # failing-input search with the model extracted from the last tree on which it compiled: its spec
         # predicates still judge what the implementation does now (mismatches with a stale model are not reported as such)
-        stale = os.path.join(BUILD, "ocaml", pid, "drive_model")
+        stale = os.path.join(extract_dir(prop.EXTRACT, prop.MODEL_VO), "drive_model")
         if os.path.exists(stale):
             model_exe = stale
             notes.append("model files do not compile on this tree; spec predicates evaluated with the previously extracted model")
